@@ -8,7 +8,10 @@ import (
 	"sync/atomic"
 	"time"
 
+	"github.com/ethereum/go-ethereum/rlp"
+
 	"github.com/vechain/thor/v2/block"
+	"github.com/vechain/thor/v2/comm/proto"
 	"github.com/vechain/thor/v2/p2p"
 	"github.com/vechain/thor/v2/p2p/discover"
 	"github.com/vechain/thor/v2/thor"
@@ -37,6 +40,7 @@ type syncResult struct {
 	Timeout   bool   `json:"timeout"`
 	Stalled   bool   `json:"stalled"` // connected to a peer with a preferred head, no request and no import for stallPolls polls
 	IdlePolls int    `json:"idlePolls"`
+	Looping   int    `json:"loopingFrom"` // > 0: the same GetBlocksFromNumber(from) was sent 5 times, nothing was imported
 	Requests  int64  `json:"messagesOnTheWire"`
 	ValidBest bool   `json:"validBest"`
 	StoreOK   bool   `json:"storeOK"`
@@ -158,7 +162,7 @@ func (e *env) runSyncPairs(n int, deep bool) {
 		}
 		e.emit(trace.Ev{"e": "SyncEnd", "case": p.label, "prefers": r.Prefers, "converged": r.Converged, "stalled": r.Stalled,
 			"lhead": trace.Ev{"score": lh.TotalScore(), "ord": ordL}, "rhead": trace.Ev{"score": rh.TotalScore(), "ord": ordR},
-			"best": where, "timeout": r.Timeout, "imported": r.Imported, "remoteOnly": sc.R - sc.A,
+			"best": where, "timeout": r.Timeout, "looping": r.Looping, "imported": r.Imported, "remoteOnly": sc.R - sc.A,
 			"tie": sc.remote[sc.R].Header().TotalScore() == sc.local[sc.H].Header().TotalScore(),
 			"H":   sc.H, "R": sc.R, "A": sc.A,
 			"validBest": r.ValidBest, "storeOK": r.StoreOK, "hostile": p.hostile.kind, "dropped": r.Dropped})
@@ -176,7 +180,23 @@ func (e *env) runPair(i int, p *pair) {
 	r.Label, r.Hostile = p.label, p.hostile.kind
 	le, re := pipe.New()
 	var acts atomic.Int64 // messages that crossed the pipe, either way: the progress signal of the stall rule
-	le.Tap = func(uint64, []byte) { acts.Add(1) }
+	// GetBlocksFromNumber requests of the local node by start number: a download that is repeated from the same number
+	// again and again without a single import in between is a sync loop that gets nowhere
+	var reqMu sync.Mutex
+	fromCount := map[uint32]int{}
+	le.Tap = func(code uint64, payload []byte) {
+		acts.Add(1)
+		if code == proto.MsgGetBlocksFromNumber {
+			if env, err := pipe.ParseEnvelope(payload); err == nil && !env.IsResult {
+				var n uint32
+				if rlp.DecodeBytes(env.Payload, &n) == nil {
+					reqMu.Lock()
+					fromCount[n]++
+					reqMu.Unlock()
+				}
+			}
+		}
+	}
 	re.Tap = func(uint64, []byte) { acts.Add(1) }
 	lc := p.local.comm
 	lc.Start()
@@ -255,6 +275,23 @@ loop:
 		}
 		if !handshake && lc.PeerCount() > 0 {
 			handshake = true // the peer is in the peer set: every sync timer tick (2 s) may select it
+			if p.hostile.kind == "" {
+				// as a node that is up does: its own head goes out to the new peer (BroadcastBlock marks the peer as knowing
+				// that block - which says nothing about the peer's best chain)
+				lc.BroadcastBlock(sc.local[sc.H])
+			}
+		}
+		if p.hostile.kind == "" && prefers {
+			reqMu.Lock()
+			for from, n := range fromCount {
+				if n >= 5 && p.local.best().ID() == sc.local[sc.H].Header().ID() {
+					r.Looping = int(from)
+				}
+			}
+			reqMu.Unlock()
+			if r.Looping > 0 {
+				break loop
+			}
 		}
 		if a, b := acts.Load(), p.local.best().ID(); a != lastActs || b != lastBest || !handshake {
 			idlePolls, lastActs, lastBest = 0, a, b
